@@ -77,8 +77,14 @@ class Prop:
                         corr_ok, prop_ok, detail = self.compare(c, im, mo, sp)
                 except Exception as e:  # a comparator crash must not look like a pass
                     corr_ok, prop_ok, detail = False, None, "comparator error: %r" % (e,)
-                results.append({"case": c, "impl": im, "model": mo, "spec": sp, "corr_ok": corr_ok, "prop_ok": prop_ok,
-                                "detail": detail})
+                if corr_ok and prop_ok is not False and len(cases) > 20000:
+                    # a large run keeps the inputs and outputs of the cases that FAIL only (a thorough tier of 10^5 passing cases
+                    # with their documents, outputs and model answers is tens of gigabytes)
+                    results.append({"case": {"id": c.get("id")}, "impl": None, "model": None, "spec": None, "corr_ok": True,
+                                    "prop_ok": prop_ok, "detail": ""})
+                else:
+                    results.append({"case": c, "impl": im, "model": mo, "spec": sp, "corr_ok": corr_ok, "prop_ok": prop_ok,
+                                    "detail": detail})
                 b = self.bucket(c, im)
                 hist[b] = hist.get(b, 0) + 1
                 if self.nontrivial(c, im):
@@ -87,6 +93,8 @@ class Prop:
                         seen.add(d)
                         if len(samples) < 3:
                             samples.append({"case": {k: v for k, v in c.items() if not k.startswith("_")}, "impl": im, "model": mo})
+                if results[-1]["impl"] is None and len(cases) > 20000:
+                    c.clear()   # a passing case of a large run is counted and forgotten
         return {"results": results, "histogram": hist, "distinct_nontrivial": len(seen), "samples": samples}
 
 
